@@ -635,7 +635,13 @@ pub fn gen_parse(rng: &mut Rng, sw: &Swarm, now: &Reading) -> OpKind {
             }
             match p {
                 T::H24 => {
-                    let n = if bad(b) { *b.rng.pick(&[24u32, 25, 99]) } else { b.rng.below(24) as u32 };
+                    let n = if bad(b) {
+                        *b.rng.pick(&[24u32, 25, 99])
+                    } else if b.rng.chance(1, 4) {
+                        23
+                    } else {
+                        b.rng.below(24) as u32
+                    };
                     let txt = num_text(b.rng, n, 2);
                     let pic = "HH24";
                     b.push(pic, txt, Sem::H24 { n });
@@ -665,12 +671,24 @@ pub fn gen_parse(rng: &mut Rng, sw: &Swarm, now: &Reading) -> OpKind {
                     b.push(pic, txt, Sem::Merid { pm });
                 }
                 T::Min => {
-                    let n = if bad(b) { *b.rng.pick(&[60u32, 61, 99]) } else { b.rng.below(60) as u32 };
+                    let n = if bad(b) {
+                        *b.rng.pick(&[60u32, 61, 99])
+                    } else if b.rng.chance(1, 3) {
+                        59
+                    } else {
+                        b.rng.below(60) as u32
+                    };
                     let txt = num_text(b.rng, n, 2);
                     b.push("MI", txt, Sem::Min { n });
                 }
                 T::Sec => {
-                    let n = if bad(b) { *b.rng.pick(&[60u32, 61, 99]) } else { b.rng.below(60) as u32 };
+                    let n = if bad(b) {
+                        *b.rng.pick(&[60u32, 61, 99])
+                    } else if b.rng.chance(1, 3) {
+                        59
+                    } else {
+                        b.rng.below(60) as u32
+                    };
                     let txt = num_text(b.rng, n, 2);
                     b.push("SS", txt, Sem::Sec { n });
                 }
@@ -684,9 +702,11 @@ pub fn gen_parse(rng: &mut Rng, sw: &Swarm, now: &Reading) -> OpKind {
                     };
                     let len = 1 + b.rng.usize_below((p as usize).min(9));
                     let mut digits = String::new();
-                    for i in 0..len {
-                        if i >= 6 {
-                            digits.push('0');
+                    // now and then a fraction that rounds up to a whole second
+                    let all_nines = b.rng.chance(1, 6);
+                    for _ in 0..len {
+                        if all_nines {
+                            digits.push('9');
                         } else {
                             digits.push((b'0' + b.rng.below(10) as u8) as char);
                         }
